@@ -841,16 +841,19 @@ func TestC23(t *testing.T) {
 			"csv_rows: CSV/TSV written with encoding/csv or all-quoted (embedded separators, quotes, newlines, CRLF, header=false), cells of canonical int/float/bool/RFC3339/string/empty kinds, kept only if encoding/csv reads the generated matrix back; "+
 			"each cell must come out as NULL (empty) or as an admitted kind whose value is strconv's for the text or the text itself. non-trivial: a quoted field. "+
 			"lines_rows: pieces over an alphabet containing separator fragments joined by sep in {default, \\n, ',', ab, \\r\\n, ||, é, \\t, ::, aab}, with/without trailing separator, rare rows of 4 KiB/64 KiB; oracle = strings.Split (final empty piece is no row), number = 0,1,2... non-trivial: multi-byte separator and >1 row. "+
-			"parquet_rows and cli_rows: see the evidence classes.",
+			"parquet_rows: four fixed shapes (flat int64/int32/double/float/bool/string; optional fields; required and optional nested groups; repeated string, LIST-annotated int64 list, repeated group with an optional member) with generated rows (edge ints/floats incl. NaN/-0/Inf, empty/multibyte/NUL strings, empty lists, absent optionals), 1-1500 rows in row groups of 1/2/7/64/100/all rows, read with SELECT * or a drawn column subset in drawn order; "+
+			"the pinned parquet-go fork has struct deconstruction disabled, so rows are shredded by hand into (value, repetition, definition, column) and written with Writer.WriteRow; oracle = the generated logical values under the reported types (a LIST-annotated group accepted as list or in its physical {list:[{element}]} form). non-trivial: not the flat shape, or several row groups. "+
+			"cli_rows: the real binary with -o json reading stdin.json / json.stdin / stdin.csv / stdin.tsv / stdin.lines / lines.stdin (and data.json as a file) of exactly 0..300000 bytes around 4 KiB, 8 KiB, 64 KiB, 128 KiB, row widths 1-30000, with/without final newline, under GOMAXPROCS 1/2/4/16 and JSON delay seeds; every printed row compared with the generated one. non-trivial: input longer than 4 KiB or 100 rows (the schema preview), file: more than one batch.",
 		"newline-separated `lines`: a carriage return directly before the newline may or may not be part of the row (bufio.ScanLines convention); both accepted",
 		"an empty JSON file / header-less empty CSV file has no columns: rejecting SELECT * over it is accepted",
 		"a `lines` row of 64 KiB or more may be refused with an error (scanner token limit), but may not be dropped silently",
-		"which admitted kind a CSV cell takes when several fit (\"1\" in Boolean | Int) is left open")
+		"which admitted kind a CSV cell takes when several fit (\"1\" in Boolean | Int) is left open",
+		"parquet: files without rows are outside the domain (the pinned writer emits no row group and the pinned reader cannot open such a file); parquet-go's own reading of pages is trusted, only octosql's reconstruction of rows is under test")
 	r := &c23{rec: rec}
 	cli.CapSeconds = 120 // the machine may be heavily loaded; termination itself is C29's subject
 	rec.SetExtra("json_delay_seed", os.Getenv("VERIF_JSON_DELAY_SEED"))
 	rec.SetExtra("gomaxprocs", os.Getenv("GOMAXPROCS"))
-	ev.Check(t, rec, "json_rows", ev.N(2400, 48000), genJSONCase, r.jsonProp)
+	ev.Check(t, rec, "json_rows", ev.N(2400, 40000), genJSONCase, r.jsonProp)
 	ev.Check(t, rec, "csv_rows", ev.N(1600, 32000), genCSVCase, r.csvProp)
 	ev.Check(t, rec, "lines_rows", ev.N(1600, 32000), genLinesCase, r.linesProp)
 	ev.Check(t, rec, "parquet_rows", ev.N(1200, 24000), genPQCase, r.parquetProp)
